@@ -51,6 +51,12 @@ func (e *Engine) verifyFunction(fn *ssa.Function, ct *Contract, sweepOnly bool) 
 		args = append(args, v)
 		x.registerInputs(p.Name(), v, p.Type(), st, 0)
 	}
+	// configuration objects received as parameters satisfy their declared type invariant too
+	for i, p := range fn.Params {
+		if vt, ok := args[i].(VTerm); ok {
+			x.typeInvFact(st, vt.T, p.Type())
+		}
+	}
 	var free []Value
 	for _, fv := range fn.FreeVars {
 		free = append(free, x.fresh(fv.Type(), fv.Name()))
